@@ -387,6 +387,74 @@ def oracle_walk(case, res):
     return None
 
 
+def gen_mutated(rng, tier, ctx):
+    """byte-level damage to generated multi-package tables: the walk has to fail or succeed as the model says"""
+    base = gen_walk(rng, "quick", ctx)
+    cases = []
+    for _ in range(400 if tier == "thorough" else 90):
+        c = rng.choice(base)
+        kind = rng.choice(("byte", "byte", "u32", "truncate", "size"))
+        cases.append({"base": c, "kind": kind, "at": rng.random(), "val": rng.choice((0, 1, 4, 8, 0xFF, 0xFFFF, 0x7FFFFFFF, 0xFFFFFFFF, rng.randrange(1 << 32)))})
+    return cases
+
+
+def build_mutated(case):
+    raw = bytearray(build_walk(case["base"]))
+    k = int(case["at"] * (len(raw) - 4))
+    if case["kind"] == "byte":
+        raw[k] = case["val"] & 0xFF
+    elif case["kind"] == "u32":
+        struct.pack_into("<I", raw, k - k % 4, case["val"])
+    elif case["kind"] == "truncate":
+        raw = raw[:max(12, k)]
+    else:                                   # a chunk size field: the word after a plausible chunk type
+        q = raw.find(b"\x01\x02", k)
+        if q >= 0 and q + 8 <= len(raw):
+            struct.pack_into("<I", raw, q + 4, case["val"])
+    return bytes(raw)
+
+
+def impl_mutated(case):
+    res = impl_walk.__wrapped__(build_mutated(case))
+    return res
+
+
+def _impl_walk_raw(raw):
+    from androguard.core.axml import ARSCParser, ARSCResType, ARSCResTableEntry, ARSCResTablePackage
+    try:
+        a = ARSCParser(raw)
+    except Exception as e:
+        return {"error": type(e).__name__, "raw": raw}
+    out = []
+    for name, items in a.packages.items():
+        pid, chunks, cur = None, [], None
+        for it in items:
+            if isinstance(it, ARSCResTablePackage):
+                pid = it.id if pid is None else pid
+            elif isinstance(it, ARSCResType):
+                cur = [it.id, it.flags, it.entryCount, []]
+                chunks.append(cur)
+            elif isinstance(it, ARSCResTableEntry):
+                if it.is_complex():
+                    pay = [2, it.item.id_parent, it.item.count, [[n, v.get_data_type(), v.get_data()] for n, v in it.item.items]]
+                elif it.is_compact():
+                    pay = [1, it.key, it.data, it.datatype]
+                else:
+                    pay = [0, it.key.get_data_type(), it.key.get_data()]
+                cur[3].append([it.mResId, it.size, it.flags, it.index, pay])
+        out.append([pid, [ord(ch) for ch in name], chunks])
+    return {"packages": out, "raw": raw}
+
+
+impl_walk.__wrapped__ = _impl_walk_raw
+
+
+def canon_mutated(res):
+    if "error" in res:
+        return Err("Other")
+    return res["packages"]
+
+
 def stats_walk(cases, results):
     d = {"tables": len(cases), "packages": 0, "same_name_packages": 0, "odd_top_chunks": 0, "library_chunks": 0, "refused": 0, "type_chunks": 0}
     for c, r in zip(cases, results):
@@ -406,4 +474,9 @@ STREAMS = [{"name": "tables", "gen": gen, "impl": impl, "canon": canon, "coq_hea
             "oracle": oracle, "stats": stats, "shard": 6, "case_timeout": 60},
            {"name": "table-walk", "gen": gen_walk, "impl": impl_walk, "canon": canon_walk, "coq_header": "Require Import V.Axml.ArscTableModel.", "coq_type": "list Z",
             "coq_input": lambda c: None, "coq_input_r": lambda c, r: zlist(list(r["raw"])), "coq_obs": "obs_table", "model_vo": "Axml/ArscTableModel.vo", "pinned": False,
-            "oracle": oracle_walk, "stats": stats_walk, "shard": 4, "case_timeout": 60}]
+            "oracle": oracle_walk, "stats": stats_walk, "shard": 4, "case_timeout": 60},
+           {"name": "damaged-tables", "gen": gen_mutated, "impl": impl_mutated, "canon": canon_mutated, "coq_header": "Require Import V.Axml.ArscTableModel.", "coq_type": "list Z",
+            "coq_input": lambda c: None, "coq_input_r": lambda c, r: zlist(list(r["raw"])), "coq_obs": "obs_table_loose", "model_vo": "Axml/ArscTableModel.vo", "pinned": False,
+            "stats": lambda cases, results: {"tables": len(cases), "parsed": sum(1 for r in results if not isinstance(r, Err) and "packages" in r),
+                                              "refused": sum(1 for r in results if not isinstance(r, Err) and "error" in r)},
+            "shard": 8, "case_timeout": 60}]
